@@ -468,6 +468,7 @@ package varlink
 //@   ensures [idle C15] gAccErr != nil && gAccTimeout ==> gCntSeen == 0 && result == boxed(zero(ServiceTimeoutError))
 //@   ensures [notimeout C15] timeout == 0 ==> gSetDl == old(gSetDl)
 //@   ensures [released C15] gBound != nil ==> closed[gBound]
+//@   ensures [drained C14] wgWaited[addr_wg]
 //@   assert [rearm C15] at call(Accept)#1 : arg0 == l && (timeout != 0 ==> gDlOk)
 //@   assert [account C14] at go#1 : s.conncounter == gCnt + 1 && wgAdds[addr_wg] == gAdds + 1 && arg0 == s && arg2 == conn && arg3 == addr_wg && gAccErr == nil
 //@   loop 1 invariant [iter] !held[s] && (gAccErr == nil || gAccTimeout) && l == gBound && l != nil && s.listener == gBound && (timeout == 0 ==> gSetDl == old(gSetDl))
@@ -493,6 +494,7 @@ package varlink
 //@   ensures [idle C15] gAccErr != nil && gAccTimeout ==> gCntSeen == 0 && result == boxed(zero(ServiceTimeoutError))
 //@   ensures [notimeout C15] timeout == 0 ==> gSetDl == old(gSetDl)
 //@   ensures [released C15] gBound != nil ==> closed[gBound]
+//@   ensures [drained C14] wgWaited[addr_wg]
 //@   ensures [nolistener C14] old(s.listener) == nil ==> result != nil
 //@   assert [rearm C15] at call(Accept)#1 : arg0 == l && (timeout != 0 ==> gDlOk)
 //@   assert [account C14] at go#1 : s.conncounter == gCnt + 1 && wgAdds[addr_wg] == gAdds + 1 && arg0 == s && arg2 == conn && arg3 == addr_wg && gAccErr == nil
